@@ -358,3 +358,32 @@ pub fn run(ctx: &mut Ctx) {
     let n = ctx.size(6_000, 200_000);
     ctx.cases("programs", n, |ctx, rng, _| case(ctx, rng));
 }
+
+/// `vcheck emit C08`: programs + inputs for the process-level fault stage of the driver
+pub fn emit(dir: &str, seed: u64, n: usize) {
+    let mut written = 0usize;
+    let mut attempt = 0u64;
+    while written < n && attempt < n as u64 * 10 {
+        attempt += 1;
+        let mut rng = Rng::new(crate::rng::mix(&[seed, 0xC08, attempt]));
+        let tree = program(&mut rng);
+        let stdin = input(&mut rng);
+        let text = match render(&tree, &Spelling::canonical(), &mut rng) {
+            Ok(r) => r.text,
+            Err(_) => continue,
+        };
+        let model = refi::run(&tree, &stdin, &refi::Budget::default());
+        if model.outcome != RefOutcome::Ok {
+            continue;
+        }
+        let base = format!("{}/case_{}", dir, written);
+        let _ = std::fs::write(format!("{}.rock", base), &text);
+        let _ = std::fs::write(format!("{}.stdin", base), &stdin);
+        let j = Json::obj()
+            .with("writes", Json::u(model.says))
+            .with("reads", Json::u(model.reads))
+            .with("reads_before_writes", Json::Bool(true));
+        let _ = std::fs::write(format!("{}.json", base), j.to_text());
+        written += 1;
+    }
+}
